@@ -248,7 +248,7 @@ func c07case(c GCase, a *run.Acc) {
 		return
 	}
 	a.Count("cases", 1)
-	env := gram.NewEnv(c.In)
+	env := gram.NewEnvAt(c.In, c.Before())
 	gd := gram.NewGuard(env.Base)
 	gd.MaxEvents, gd.MaxCalls, gd.MaxList = 60000, 60000, 60
 	gd.NoAssert = true
